@@ -7,7 +7,7 @@
    with queries.  [slot gs g i] is connection slot i of gate g, a [conn] is
    (peer gate, slot index used on the peer, channel latency?). *)
 From Coq Require Import List NArith.
-From DesVerif Require Import Gate.Model Gate.Sym Gate.Walk Gate.Deliver Gate.Reach.
+From DesVerif Require Import Gate.Model Gate.Sym Gate.Walk Gate.Deliver Gate.Reach Gate.Spawn.
 Import ListNotations.
 Open Scope N_scope.
 
@@ -182,6 +182,30 @@ Theorem C08_script_deliveries : forall owners ops k g t d b x,
     chain_ok (owner_of gs far) rest /\ (length rest <= N.to_nat b)%nat.
 Proof. exact script_deliveries. Qed.
 Print Assumptions C08_script_deliveries.
+
+(* Gates created at run time through a spawner ([Spawn caller target size],
+   executed inside at_sim_start by module [caller]): the j-th new gate gets the
+   next free id and is owned by [target], the module the spawner is bound to -
+   whoever executed the call and whatever is executed afterwards.  All theorems
+   above are stated for every operation list, Spawn / RConnect included, so the
+   receiver of a message is the owner so declared. *)
+Theorem C08_spawned_gates_owner : forall owners ops caller target size more j,
+  (j < N.to_nat size)%nat ->
+  owner_of (sgates (fst (exec (init owners) (ops ++ Spawn caller target size :: more))))
+           (N.of_nat (length (sgates (fst (exec (init owners) ops)))) + N.of_nat j) = target.
+Proof. exact spawned_gates_owner. Qed.
+Print Assumptions C08_spawned_gates_owner.
+
+(* Non-vacuity (run-time wiring): module 0 creates gate g1 on itself and gate g2
+   on module 1 through module 1's spawner, connects them at run time and sends:
+   the message reaches module 1. *)
+Example C08_nonvacuous_spawn :
+  let ops := [Spawn 0 0 1; Spawn 0 1 1; RConnect 0 1 2 (Some (3, 0)); Send 1 5 0 0] in
+  let r := exec (init [2]) ops in
+  snd r = [OSpawn; OSpawn; OUnit; OSent] /\
+  map (send_one (sgates (fst r)) (rules_of (sgates (fst r)) ops)) (sends_of (sgates (fst r)) ops) =
+    [[(0, SDelivered {| d_to := 1; d_time := 8; d_sender := 0; d_receiver := 1; d_last := 2 |})]].
+Proof. vm_compute. split; reflexivity. Qed.
 
 (* Non-vacuity: a 3-hop chain g3 - g1 - g0 - g2 over modules 0,1,2,0 built
    middle-first with mixed orientation (so g1 and g0 hold their onward
